@@ -226,14 +226,25 @@ class FnCaseBuilder:
         rng = self.rng
         helpers = []
         n = rng.randint(1, 3) if rng.random() < DEFAULT_PROFILE["p_helpers"] else 0
+        # different dependency traits whose paths end in the same identifier (`hm0::H + hm1::H`)
+        same_named = n >= 2 and rng.random() < 0.3
         for i in range(n):
             is_async = rng.random() < 0.3
             tname = "H%d" % i
             fname = "h%d" % i
             fid = "%s::%s" % (self.cid, fname)
             body = '::vrt::enter("%s", ::vrt::tn(deps), ::vrt::addr(deps), &[&x as &dyn ::core::fmt::Debug]); x + %d' % (fid, i)
-            self.lines.append("#[::entrait::entrait(pub %s)]" % tname)
-            self.lines.append("%sfn %s<D>(deps: &D, x: i32) -> i32 { %s }" % ("async " if is_async else "", fname, body))
+            if same_named:
+                # hand-implemented leaf traits (no blanket impl): `Impl<App>: hmK::H` holds only through the delegation
+                # to `App`, so a bound lost from the generated impl cannot be satisfied by accident
+                tname = "hm%d::H" % i
+                is_async = False
+                self.lines.append("pub mod hm%d { #[::entrait::entrait_export(mock_api = HMock)] pub trait H { fn %s(&self, x: i32) -> i32; } }" % (i, fname))
+                self.lines.append('impl hm%d::H for App { fn %s(&self, x: i32) -> i32 { ::vrt::enter("%s", "", ::vrt::addr(self), &[&x as &dyn ::core::fmt::Debug]); x + %d } }' % (
+                    i, fname, fid, i))
+            else:
+                self.lines.append("#[::entrait::entrait(pub %s)]" % tname)
+                self.lines.append("%sfn %s<D>(deps: &D, x: i32) -> i32 { %s }" % ("async " if is_async else "", fname, body))
             helpers.append((tname, fname, fid, is_async))
         return helpers
 
